@@ -45,7 +45,7 @@ theorem N2_DTAU_DF__DS_DF (hc : c * c = 2) (h2 : (2:K) ≠ 0)
   c23_unfold
   generalize_ne hd0 => e0 he0
   (try (repeat' apply And.intro))
-  all_goals (first | rfl | (field_simp <;> (try simp only [← he0]) <;> c23_ring hc))
+  all_goals (first | rfl | (field_simp <;> (try simp only [← he0]) <;> c23_field hc))
 
 /-- `C_TAU_JAUMANN ← DTAU_DF` (2D): along every variation `δF = L F` with symmetric `L` the converted operator, applied to the
 rate of its kinematic variable, gives the rate of the Jaumann rate of the Kirchhoff stress that reproduces the same Lie derivative of
